@@ -15,3 +15,6 @@ open Rtsp.Peer.C19
 #print axioms linked_only_to_own_address
 #print axioms driven_only_from_author_address
 #print axioms client_foreign_zone
+#print axioms delivered_only_if_negotiated
+#print axioms pinned_iff_streaming_interleaved
+#print axioms interleaved_session_obeys_only_its_connection
